@@ -269,7 +269,7 @@ when_kernel Gzx.Gen.K02e.decodeAnsiX12Segment in
 theorem k_decodeAnsiX12Segment_eq (fuel : Nat) (bs : List Nat) (hb : ∀ b ∈ bs, b < 256) (off : Nat) (hoff : off ≤ bs.length)
     (hf : bs.length + 2 ≤ fuel) (result : List Int) (a : Acc) (n : Nat) :
     match x12Seg (bs.drop off) a n with
-    | .ok (a', n') => ∃ d, a' = a.pushAll d ∧
+    | .ok (a', n') => ∃ d, x12Out (bs.drop off) = .ok (d, n' - n) ∧ a' = a.pushAll d ∧
         Gen.K02e.decodeAnsiX12Segment fuel (bytesI bs) (off : Int) 0 result
           = .ok (result ++ bytesI d, false, ((off + (n' - n) : Nat) : Int), 0, result ++ bytesI d)
     | .error e => e = .format ∧ ∃ r bo, Gen.K02e.decodeAnsiX12Segment fuel (bytesI bs) (off : Int) 0 result = .ok (r, true, bo, 0, r) := by
@@ -289,7 +289,7 @@ theorem k_decodeAnsiX12Segment_eq (fuel : Nat) (bs : List Nat) (hb : ∀ b ∈ b
   | ok p =>
     rw [hx] at this
     simp only [Except.map]
-    refine ⟨p.1, rfl, ?_⟩
+    refine ⟨p.1, by simp, rfl, ?_⟩
     simp only [X12Agrees] at this
     rw [this]
     simp
